@@ -178,6 +178,47 @@ class Sym:
         fr.resolve_locals = True
         return normalise(self.ev(node, e, fr))
 
+    def terms_at(self, func: FuncInfo, recv, nodes) -> Dict[int, List[tuple]]:
+        """Value terms of the expression nodes `nodes` (sub-expressions of func's body, nested functions excluded) in the
+        environment in which each is evaluated: {id(node): [normalised terms, one per distinct evaluation]}.  Locals
+        are resolved through the assignments / loops executed before the node on that path."""
+        old = getattr(self, '_capture', None)
+        self._capture = {id(n): [] for n in nodes}
+        try:
+            if func.parent is not None:
+                ctx = Ctx(func, recv)
+                env = _Env()
+                root = func
+                while root.parent is not None:
+                    root = root.parent
+                for fn in self._func_chain(func):
+                    for i, p in enumerate(fn.params):
+                        if fn is root and i == 0 and root.cls is not None and not root.is_static and recv is not None:
+                            env.set(p, ('self',))
+                        else:
+                            env.set(p, ('p', p))
+                fr = _Frame(ctx, ('self',) if recv is not None else None, recv[1] if recv else None, 0)
+                self._stack.append(('func', func.qualname, recv[1].qualname if recv else None))
+                try:
+                    self._run_func(func, env, fr)
+                finally:
+                    self._stack.pop()
+            else:
+                self.func_term(func, recv)
+            out = {}
+            for k, ts in self._capture.items():
+                seen, lst = set(), []
+                for t in ts:
+                    t = normalise(t)
+                    h = term_hash(t)
+                    if h not in seen:
+                        seen.add(h)
+                        lst.append(t)
+                out[k] = lst
+            return out
+        finally:
+            self._capture = old
+
     def local_term(self, func: FuncInfo, recv, var: str, at_end=True) -> tuple:
         """Value term of local variable `var` after executing the function's straight-line body (no return taken)."""
         ctx = Ctx(func, recv)
@@ -709,6 +750,11 @@ class Sym:
         m = getattr(self, '_ev_' + type(node).__name__, None)
         if m is None:
             return opaque(node)
+        cap = getattr(self, '_capture', None)
+        if cap is not None and id(node) in cap:
+            t = m(node, env, fr)
+            cap[id(node)].append(t)
+            return t
         return m(node, env, fr)
 
     def _ev_Constant(self, node, env, fr):
